@@ -91,6 +91,9 @@ class World:
         t.waitpid_hook = hook
 
         def on_access(vk_, i, kind, path):
+            if i > 400000:
+                # watchdog in logical steps (a call that spins without ever sleeping)
+                raise RuntimeError("runaway: more than 400000 kernel accesses in one simulated case (the call never returns)")
             if kind in ("waitpid", "kill"):
                 self.polls.append((self.clock.t, path, kind))
         vk.on_access = on_access
@@ -106,9 +109,17 @@ class World:
         def virtual(fn):
             # whichever clock the code chose keeps its nature: the monotonic one never steps, the calendar one does
             return wall if fn is _time.time else self.clock.now
+        nsleeps = [0]
+
+        def sleep(dt):
+            # watchdog in logical steps: no call examined here needs anywhere near that many polls
+            nsleeps[0] += 1
+            if nsleeps[0] > 300000:
+                raise RuntimeError("runaway: more than 300000 polls in one simulated case (the call never returns)")
+            return self.clock.sleep(dt)
         d = list(env["orig_defaults"])
         d[3] = virtual(d[3])
-        d[5] = self.clock.sleep
+        d[5] = sleep
         env["pp"].wait_pid.__defaults__ = tuple(d)
         self.ps._timer = virtual(env["orig_timer"])
         return self
@@ -350,7 +361,8 @@ def run_wait_procs_case(case, acc):
         objs = [ps.Process(pr["pid"]) for pr in procs]
         # the same process mentioned more than once: the very same object again, or a second equal object
         given = list(objs)
-        for idx, how in case.get("dups", []):
+        for idx, how in (case.get("dups", []) if not case.get("reuse") else []):
+            # (not together with a recycled pid: a second object that never waited would wait for the newcomer)
             if idx < len(objs):
                 given.append(objs[idx] if how == "same" else ps.Process(procs[idx]["pid"]))
         if case.get("dups"):
@@ -367,6 +379,14 @@ def run_wait_procs_case(case, acc):
                     acc.count("wait_procs_object_already_waited")
                 except ps.TimeoutExpired:
                     acc.count("wait_procs_object_already_timed_out")
+        if case.get("reuse"):
+            # the pid of a process that is gone (and was already waited for) now belongs to somebody else
+            for pr in procs:
+                # (only objects whose wait() has already answered: an object that never learnt of the death waits for the
+                # pid, i.e. for the newcomer - that is wait()'s documented way of working, not what is examined here)
+                if pr["pid"] in prewaited and pr["pid"] not in w.t.procs:
+                    w.t.spawn(pr["pid"], 999000, ppid=1, comm=b"newcomer")
+                    acc.count("wait_procs_pid_recycled_before_the_call")
         cb_calls = []
         cb = (lambda p: cb_calls.append(p)) if case.get("callback", True) else None
         w.clock.advance(0)
@@ -438,6 +458,8 @@ def wait_procs_cases(tier):
                 out.append(dict(procs=procs, timeout=timeout, callback=True))
                 if n <= 3:
                     out.append(dict(procs=procs, timeout=timeout, callback=True, prewait=[0, n - 1]))
+                    out.append(dict(procs=procs, timeout=timeout, callback=True, prewait=[0, n - 1], reuse=True))
+                    out.append(dict(procs=procs, timeout=timeout, callback=True, reuse=True))
                 if n <= 2:
                     for how in ("same", "equal"):
                         out.append(dict(procs=procs, timeout=timeout, callback=True, dups=[[0, how]]))
@@ -458,6 +480,8 @@ def gen_wait_procs_case(rng):
         case["wall_steps"] = [[rng.random() * ((timeout or 1.0) + 0.2), rng.choice([-3600.0, -3.0, 3.0, 3600.0])]]
     if rng.random() < 0.3:
         case["form"] = rng.choice(["tuple", "generator", "iterator", "filter", "dict_keys"])
+    if rng.random() < 0.15:
+        case["reuse"] = True
     if rng.random() < 0.3:
         case["prewait"] = sorted({rng.randrange(n) for _ in range(rng.randrange(1, 4))})
     if rng.random() < 0.3:
@@ -672,6 +696,48 @@ def plan(tier, seed):
     return shards
 
 
+def run_ticking_clock_case(case, acc):
+    """A clock that moves a little at every *reading* (as a real one does between two calls): for a process that stays alive,
+    wait(timeout) ends in TimeoutExpired(seconds=timeout, pid) - never before the deadline, never in another exception -
+    wherever the deadline falls between two readings."""
+    env = setup()
+    ps = env["ps"]
+    tick, timeout, kind = case["tick"], case["timeout"], case["kind"]
+    w = World([dict(pid=PID, kind=kind, exit_at=None, status=0)])
+    viols = []
+    with w:
+        now0 = env["pp"].wait_pid.__defaults__[3]
+
+        def ticking():
+            w.clock.advance(tick)
+            return now0()
+        d = list(env["pp"].wait_pid.__defaults__)
+        d[3] = ticking
+        env["pp"].wait_pid.__defaults__ = tuple(d)
+        p = ps.Process(PID)
+        start = w.clock.t
+        try:
+            r = p.wait(timeout)
+            viols.append(("wait_returned_for_live_process:ticking_clock", f"case={case} -> {r!r}"))
+        except ps.TimeoutExpired as e:
+            acc.count("ticking_clock_timeouts_checked")
+            if e.seconds != timeout or e.pid != PID:
+                viols.append(("timeout_wrong_fields", f"case={case} seconds={e.seconds} pid={e.pid}"))
+            if w.clock.t < start + timeout - 1e-12:
+                viols.append(("timeout_before_deadline", f"case={case} raised at +{w.clock.t - start:.6f}"))
+        except Exception as e:  # noqa: BLE001
+            viols.append((f"wait_exception:{type(e).__name__}:ticking_clock", f"case={case} raised {e!r}"))
+    acc.case(dict(case, ticking=True), True, viols)
+
+
+def ticking_cases():
+    out = []
+    for tick in (1e-4, 3.3e-4, 1e-3):
+        for i in range(1, 700):
+            out.append(dict(tick=tick, timeout=round(i * 0.00031, 6), kind="child" if i % 2 else "nonchild"))
+    return out
+
+
 def run_shard(shard):
     acc = harness.Acc(max_samples=2)
     setup()
@@ -680,6 +746,8 @@ def run_shard(shard):
         cases = grid_cases("quick")
         for c in cases:
             run_wait_case(c, acc)
+        for c in ticking_cases():
+            run_ticking_clock_case(c, acc)
         acc.count("grid_placements", len(cases))
         acc.exhaustive = True
     elif k == "wp_enum":
@@ -697,7 +765,9 @@ def run_shard(shard):
                 run_wait_case(gen_wait_case(rng), acc)
     elif k == "cases":
         for c in shard["cases"]:
-            if "procs" in c:
+            if c.get("ticking"):
+                run_ticking_clock_case(c, acc)
+            elif "procs" in c:
                 run_wait_procs_case(c, acc)
             elif "live" in c:
                 run_live(acc, "quick")
